@@ -379,6 +379,8 @@ type Scenario struct {
 	HookReads bool
 	// ClockStep: virtual time that passes per clock reading of a process (0 = 100us)
 	ClockStep time.Duration
+	// FaultTableRemoves: removals of table files can take the injected fault too
+	FaultTableRemoves bool
 	// ClockAhead: see vos.Sched.ClockAhead (0 = the virtual clock runs before all file times)
 	ClockAhead time.Duration
 }
@@ -419,6 +421,7 @@ func (l *Lab) Run(sc *Scenario, dirName string) *Result {
 	s.HookReads = sc.HookReads
 	s.ClockStep = sc.ClockStep
 	s.ClockAhead = sc.ClockAhead
+	s.FaultTableRemoves = sc.FaultTableRemoves
 	s.PreOp = w.PreOp
 	s.PostOp = w.PostOp
 	s.OnCrash = w.OnCrash
